@@ -204,8 +204,9 @@ func sortJSONArray(input gjson.Result, output []byte) []byte {
 // inputJSON must be the raw JSON bytes that gjson.Result points to.
 func sortJSONObject(input gjson.Result, output []byte) []byte {
 	type entry struct {
-		key   string // The parsed key string
-		value gjson.Result
+		key    string // The parsed key string, used for ordering
+		rawKey string // The raw JSON key, including the quotes and any escapes
+		value  gjson.Result
 	}
 
 	// Try to stay on the stack here if we can.
@@ -216,8 +217,9 @@ func sortJSONObject(input gjson.Result, output []byte) []byte {
 	// that we can sort
 	input.ForEach(func(key, value gjson.Result) bool {
 		entries = append(entries, entry{
-			key:   key.String(),
-			value: value,
+			key:    key.String(),
+			rawKey: key.Raw,
+			value:  value,
 		})
 		return true // keep iterating
 	})
@@ -234,10 +236,11 @@ func sortJSONObject(input gjson.Result, output []byte) []byte {
 		output = append(output, sep)
 		sep = ','
 
-		// Append the raw unparsed JSON key, *not* the parsed key
-		output = append(output, '"')
-		output = append(output, entry.key...)
-		output = append(output, '"', ':')
+		// Append the raw unparsed JSON key, *not* the parsed key: the parsed
+		// key has lost the escapes that quotes, backslashes and control
+		// characters need, so emitting it would produce invalid JSON.
+		output = append(output, entry.rawKey...)
+		output = append(output, ':')
 		output = sortJSONValue(entry.value, output)
 	}
 	if sep == '{' {
